@@ -6,7 +6,8 @@ from ..framework import Check
 from .c13 import nl_lines
 from .. import blocklib as bl, lib
 
-LINE_POOL = ["BEGIN X", "END", "  BEGIN", "data 1", "STOP here", "B", "", "XEND", "--", "# c", "E", "BEGIN END", "GIN X B"]
+LINE_POOL = ["BEGIN X", "END", "  BEGIN", "data 1", "STOP here", "B", "", "XEND", "--", "# c", "E", "BEGIN END", "GIN X B",
+             "BEGIN \u00e9t\u00e9", "\u00e7 END", "\u20ac B"]
 
 
 class CHECK(Check):
@@ -64,9 +65,18 @@ class CHECK(Check):
         blocks = bl.mk_block_classes(case["blocks"], binary)
         F = bl.mk_blockfile_class(blocks, binary)
         content = case["content"].encode("latin-1") if binary else case["content"]
+        arg = content
+        import os, hashlib
+        if not binary and content and "\r" not in content and int(hashlib.sha1(repr(case).encode()).hexdigest(), 16) % 3 == 0:
+            # a third of the text cases come from a file on disk (utf-8): positions there are bytes, not characters
+            d = os.path.join(lib.SCRATCH, "tmp_c12")
+            os.makedirs(d, exist_ok=True)
+            arg = os.path.join(d, "in.txt")
+            with open(arg, "w", encoding="utf-8", newline="") as fh:
+                fh.write(content)
         try:
             with lib.budget(5000 + 600 * (len(content) + 1)):
-                f = F.read(content)
+                f = F.read(arg)
                 elems = bl.canon_raw(f.data, DefaultBlock, binary, cap=len(content) + 5)
                 buf = io.BytesIO() if binary else io.StringIO()
                 f.write(buf)
